@@ -51,6 +51,25 @@ func c03Systems() []*HistSys {
 	return out
 }
 
+// cloudHistSystems: reserving classes with a cloud provider configured; the alphabet also has a scheduling attempt and an
+// event delivery during which one provider call fails cleanly. Start state: both pods bound, the first one deleted and its
+// event handled (its IP is reserved).
+func cloudHistSystems() []*HistSys {
+	ops := map[string]bool{"cloudfail": true}
+	for k, v := range histOpsAll {
+		ops[k] = v
+	}
+	pre := []Op{{Kind: "create", A: 0}, {Kind: "sched", A: 0}, {Kind: "create", A: 1}, {Kind: "sched", A: 1}, {Kind: "delete", A: 0}, {Kind: "deliver", A: 0}}
+	var out []*HistSys
+	for _, c := range histClasses {
+		if c.Policy == "" && c.Kind != "dppool" {
+			continue
+		}
+		out = append(out, &HistSys{Class: c, Cfg: cfgTwoPools(true), NPods: 2, Replicas: 2, Ops: ops, PrefixName: "cloud-onedeleted", Prefix: pre})
+	}
+	return out
+}
+
 func (h *HistSys) jobName() string {
 	if h.PrefixName != "" {
 		return "hist/" + h.Class.String() + "@" + h.PrefixName
@@ -125,7 +144,7 @@ func c02Model(h *HistSys, hist []Op, w *world.World) (*Finding, string) {
 			dead[o.EventUID] = true
 			alive[o.Op.A] = false
 			endIdentityReservations()
-		case "deliver":
+		case "deliver", "delivercf":
 			if dead[o.EventUID] {
 				known[o.EventUID] = true
 			}
@@ -542,6 +561,10 @@ func init() {
 				h.ModelCanon = c02ModelCanon
 				jobs = append(jobs, histJob("C02", h.jobName(), h, depth, oracleC02, nil))
 			}
+			for _, h := range cloudHistSystems() {
+				h.ModelCanon = c02ModelCanon
+				jobs = append(jobs, histJob("C02", h.jobName(), h, depth-2, oracleC02, nil))
+			}
 			for _, sc := range c02Concurrent(tier) {
 				jobs = append(jobs, ExploreJob("C02", sc, oracleC02Concurrent))
 			}
@@ -549,7 +572,7 @@ func init() {
 		}})
 	replayers["C02"] = func(tier string, v coop.Violation) int {
 		if len(v.Ops) > 0 {
-			return replayHist("C02", histSystems(false), oracleC02, v)
+			return replayHist("C02", append(histSystems(false), cloudHistSystems()...), oracleC02, v)
 		}
 		return replayExplore("C02", c02Concurrent(tier), oracleC02Concurrent, v)
 	}
@@ -565,9 +588,14 @@ func init() {
 			for _, h := range c03Systems() {
 				jobs = append(jobs, histJob("C03", h.jobName(), h, depth, oracleC03, nil))
 			}
+			for _, h := range cloudHistSystems() {
+				jobs = append(jobs, histJob("C03", h.jobName(), h, depth-2, oracleC03, nil))
+			}
 			return jobs
 		}})
-	replayers["C03"] = func(tier string, v coop.Violation) int { return replayHist("C03", c03Systems(), oracleC03, v) }
+	replayers["C03"] = func(tier string, v coop.Violation) int {
+		return replayHist("C03", append(c03Systems(), cloudHistSystems()...), oracleC03, v)
+	}
 }
 
 func c02Concurrent(tier string) []*Scenario {
